@@ -358,3 +358,189 @@ Proof.
   rewrite (exec_from_reads _ (map OpenRead sources)) by apply map_reads_only.
   destruct writes; [apply to_file_fail_exec | reflexivity].
 Qed.
+
+(* ====================================================================================================
+   The stronger monitor [quiet]: while a cart is being encoded the WHOLE file system is frozen.
+   ==================================================================================================== *)
+Definition kind_flag (k : hkind) : bool := match k with HFile _ => true | HTemp _ => false end.
+Definition habs (hs : list (handle * hkind)) : list (handle * bool) :=
+  map (fun x => (fst x, kind_flag (snd x))) hs.
+
+Lemma habs_lookup hs h : qlookup (habs hs) h = option_map kind_flag (hlookup hs h).
+Proof.
+  induction hs as [|[k v] hs IH]; cbn; [reflexivity|]. destruct (k =? h); [reflexivity | exact IH].
+Qed.
+
+Lemma habs_remove hs h : habs (hremove hs h) = qremove (habs hs) h.
+Proof.
+  induction hs as [|[k v] hs IH]; cbn; [reflexivity|]. destruct (k =? h); cbn; [exact IH | f_equal; exact IH].
+Qed.
+
+(* one step: the monitor's handle table follows the semantics; while encoding, no path changes *)
+Lemma qstep_sim (st : state) enc (o : op bytes) q' :
+  qstep (habs (st_handles st), enc) o = Some q' ->
+  fst q' = habs (st_handles (exec_op st o))
+  /\ (enc = true -> forall p, st_fs (exec_op st o) p = st_fs st p)
+  /\ (enc = true -> is_done o = false -> snd q' = true).
+Proof.
+  assert (T : forall (P Q R : Prop), P -> Q -> R -> P /\ Q /\ R) by tauto.
+  destruct o; cbn [qstep exec_op is_done].
+  - intros [= <-]. cbn. rewrite habs_remove. apply T; auto.
+  - intros [= <-]. apply T; auto.
+  - destruct enc; [discriminate|]. intros [= <-]. cbn. rewrite habs_remove.
+    apply T; [reflexivity | discriminate | discriminate].
+  - rewrite habs_lookup. destruct (hlookup (st_handles st) h) as [[c|p]|] eqn:El; cbn [option_map kind_flag].
+    + intros [= <-]. cbn. rewrite habs_remove. apply T; auto.
+    + destruct enc; [discriminate|]. intros [= <-]. cbn. apply T; [reflexivity | discriminate | discriminate].
+    + intros [= <-]. apply T; auto.
+  - intros [= <-]. apply T; auto.
+  - intros [= <-]. apply T; auto.
+  - intros [= <-]. cbn. rewrite habs_remove. apply T; auto.
+  - destruct enc; [discriminate|]. intros [= <-]. cbn. apply T; [reflexivity | discriminate | discriminate].
+  - destruct enc; [discriminate|]. intros [= <-]. destruct (zlist_eqb p q); cbn;
+      (apply T; [reflexivity | discriminate | discriminate]).
+  - intros [= <-]. cbn. apply T; auto; try (intros _ H; discriminate H).
+  - intros [= <-]. apply T; auto.
+Qed.
+
+Lemma qrun_sim (tr : list (op bytes)) : forall st enc q',
+  qrun (habs (st_handles st), enc) tr = Some q' ->
+  fst q' = habs (st_handles (exec_from st tr)).
+Proof.
+  induction tr as [|o tr IH]; intros st enc q'; cbn [qrun exec_from fold_left].
+  - intros [= <-]. reflexivity.
+  - destruct (qstep (habs (st_handles st), enc) o) as [[hs1 e1]|] eqn:E; [|discriminate].
+    destruct (qstep_sim st enc o _ E) as (H1 & _ & _). cbn in H1. subst hs1.
+    apply IH.
+Qed.
+
+Lemma qrun_frozen (tr : list (op bytes)) : forall st q',
+  qrun (habs (st_handles st), true) tr = Some q' -> encoder_done tr = false ->
+  forall p, st_fs (exec_from st tr) p = st_fs st p.
+Proof.
+  induction tr as [|o tr IH]; intros st q' Hq Hd p; cbn [qrun exec_from fold_left] in *; [reflexivity|].
+  cbn in Hd. apply orb_false_iff in Hd. destruct Hd as [Hd1 Hd2].
+  destruct (qstep (habs (st_handles st), true) o) as [[hs1 e1]|] eqn:E; [|discriminate].
+  destruct (qstep_sim st true o _ E) as (H1 & H2 & H3). cbn in H1, H3. subst hs1.
+  rewrite (H3 eq_refl Hd1) in Hq.
+  fold (exec_from (exec_op st o) tr). rewrite (IH _ _ Hq Hd2 p). apply H2. reflexivity.
+Qed.
+
+Lemma qrun_app {D} (a b : list (op D)) q :
+  qrun q (a ++ b) = match qrun q a with Some q' => qrun q' b | None => None end.
+Proof.
+  revert q. induction a as [|o a IH]; intros q; cbn; [reflexivity|].
+  destruct (qstep q o); [apply IH | reflexivity].
+Qed.
+
+(* from the moment an encoder starts (OpenTemp) until it is done, no path of the file system changes -
+   whatever happened before (other carts written, handles open), for every prefix *)
+Theorem quiet_sound : forall (tr : list (op bytes)), quiet tr = true ->
+  forall fs a h b r, tr = a ++ OpenTemp h :: b ++ r -> encoder_done b = false ->
+  forall p, exec fs (a ++ OpenTemp h :: b) p = exec fs a p.
+Proof.
+  intros tr Hq fs a h b r -> Hd p. unfold quiet in Hq.
+  rewrite qrun_app in Hq.
+  destruct (qrun ([], false) a) as [[hsa ea]|] eqn:Ea; [|discriminate].
+  change (@nil (handle * bool)) with (habs (st_handles (mkState fs []))) in Ea.
+  pose proof (qrun_sim a _ _ _ Ea) as Ha. cbn in Ha. subst hsa.
+  change (OpenTemp h :: b ++ r) with ([OpenTemp h] ++ b ++ r) in Hq.
+  rewrite qrun_app in Hq. cbn [qrun qstep] in Hq. rewrite <- habs_remove in Hq.
+  rewrite qrun_app in Hq.
+  set (sta := exec_from (mkState fs []) a) in *.
+  change ((h, false) :: habs (hremove (st_handles sta) h)) with (habs (st_handles (exec_op sta (OpenTemp h)))) in Hq.
+  destruct (qrun (habs (st_handles (exec_op sta (OpenTemp h))), true) b) as [qb|] eqn:Eb; [|discriminate].
+  unfold exec. rewrite exec_from_app. fold sta.
+  change (OpenTemp h :: b) with ([OpenTemp h] ++ b). rewrite exec_from_app.
+  change (exec_from sta [OpenTemp h]) with (exec_op sta (OpenTemp h)).
+  rewrite (qrun_frozen b _ _ Eb Hd p). reflexivity.
+Qed.
+
+(* ---------- the protocol model is quiet ---------- *)
+Lemma qrun_reads {D} (l : list path) q : qrun q (map (@OpenRead D) l) = Some q.
+Proof. induction l; cbn; [reflexivity|]. destruct q. exact IHl. Qed.
+
+Lemma qrun_label {D} f dest ex lbl q : qrun q (label_reads (D:=D) f dest ex lbl) = Some q.
+Proof.
+  unfold label_reads. destruct q. destruct f; try reflexivity. destruct lbl; [reflexivity|]. destruct ex; reflexivity.
+Qed.
+
+Lemma qrun_temp_writes {D} h hs enc (l : list D) :
+  qlookup hs h = None ->
+  qrun ((h, false) :: hs, enc) (map (Write h) l) = Some ((h, false) :: hs, enc).
+Proof.
+  intros Hn. induction l as [|d l IH]; cbn [map qrun qstep qlookup]; [reflexivity|].
+  rewrite Z.eqb_refl. cbn [qremove]. rewrite Z.eqb_refl.
+  assert (Hr : qremove hs h = hs).
+  { clear IH. induction hs as [|[k v] hs IHh]; cbn in *; [reflexivity|].
+    destruct (k =? h); [discriminate Hn|]. f_equal. apply IHh. exact Hn. }
+  rewrite Hr. exact IH.
+Qed.
+
+(* a to_file run started with no open handle and no encoder running: accepted, and it ends with no open
+   handle; a failed run ends "still encoding" (the command is over), a complete one "not encoding" *)
+Lemma to_file_qrun {D} (cat : list D -> D) fmt dest ex lbl chunks fail enc0 :
+  qrun ([], enc0) (to_file_trace cat fmt dest ex lbl chunks fail)
+  = Some ([], match fmt, fail with
+              | None, _ => enc0
+              | Some _, Some _ => true
+              | Some _, None => false
+              end).
+Proof.
+  unfold to_file_trace. destruct fmt as [f|]; [|reflexivity].
+  change (OpenTemp h_temp :: ?x) with ([OpenTemp h_temp] ++ x).
+  rewrite qrun_app. cbn [qrun qstep qremove].
+  rewrite qrun_app, qrun_label.
+  destruct fail as [k|]; rewrite qrun_app, qrun_temp_writes by reflexivity; reflexivity.
+Qed.
+
+Theorem to_file_quiet {D} (cat : list D -> D) fmt dest ex lbl chunks fail :
+  quiet (to_file_trace cat fmt dest ex lbl chunks fail) = true.
+Proof. unfold quiet. rewrite to_file_qrun. reflexivity. Qed.
+
+Lemma process_one_qrun {D} (cat : list D -> D) exts ow fname incs loads oex chunks fail enc0 :
+  exists e, qrun ([], enc0) (process_one_trace cat exts ow fname incs loads oex chunks fail) = Some ([], e)
+            /\ (fail = None -> aborts exts ow (mkCartIn fname incs loads oex chunks) = false -> enc0 = false -> e = false).
+Proof.
+  unfold process_one_trace, aborts. cbn [ci_fname ci_loads].
+  destruct (negb (ends_with fname ".p8.png"%bs) && negb (ends_with fname ".p8"%bs)).
+  { exists enc0. split; [reflexivity | auto]. }
+  change (OpenRead fname :: ?x) with (map (@OpenRead D) [fname] ++ x).
+  rewrite qrun_app, qrun_reads, qrun_app, qrun_reads.
+  destruct loads.
+  - rewrite to_file_qrun. eexists. split; [reflexivity|].
+    intros -> Ha ->. cbn in Ha. destruct (formatter_for_filename exts (out_fname ow fname)); [reflexivity | discriminate Ha].
+  - exists enc0. split; [reflexivity | auto].
+Qed.
+
+Theorem process_many_quiet {D} (cat : list D -> D) exts ow files : forall fail,
+  quiet (process_many_trace cat exts ow files fail) = true.
+Proof.
+  unfold quiet.
+  assert (H : forall fail, exists e, qrun ([], false) (process_many_trace cat exts ow files fail) = Some ([], e)).
+  { induction files as [|c files IH]; intros fail; cbn [process_many_trace].
+    - exists false. reflexivity.
+    - destruct c as [fname incs loads oex chunks].
+      cbn [ci_fname ci_incs ci_loads ci_out_exists ci_chunks].
+      destruct (aborts exts ow (mkCartIn fname incs loads oex chunks)) eqn:Ea.
+      + destruct (process_one_qrun cat exts ow fname incs loads oex chunks None false) as (e & He & _).
+        exists e. exact He.
+      + destruct fail as [k|].
+        * destruct (Nat.ltb k _).
+          -- destruct (process_one_qrun cat exts ow fname incs loads oex chunks (Some k) false) as (e & He & _).
+             exists e. exact He.
+          -- destruct (process_one_qrun cat exts ow fname incs loads oex chunks None false) as (e & He & Hf).
+             rewrite qrun_app, He, (Hf eq_refl Ea eq_refl). apply IH.
+        * destruct (process_one_qrun cat exts ow fname incs loads oex chunks None false) as (e & He & Hf).
+          rewrite qrun_app, He, (Hf eq_refl Ea eq_refl). apply IH. }
+  intros fail. destruct (H fail) as (e & ->). reflexivity.
+Qed.
+
+Theorem build_quiet {D} (cat : list D -> D) exts out oex sources writes chunks fail :
+  quiet (build_trace cat exts out oex sources writes chunks fail) = true.
+Proof.
+  unfold quiet, build_trace.
+  assert (H : (if oex then [OpenRead out] else []) = map (@OpenRead D) (if oex then [out] else [])) by (destruct oex; reflexivity).
+  rewrite H, qrun_app, qrun_reads, qrun_app, qrun_reads.
+  destruct writes; [rewrite to_file_qrun; reflexivity | reflexivity].
+Qed.
